@@ -278,6 +278,12 @@ class Stub:
         return '<stub %s>' % self.__dict__['_stub'][0]
 
 
+def _stub_method(con, obj, source, qual):
+    def method(*args, **kwargs):
+        return call_by_contract(con, [obj] + list(args), kwargs, source, qual)
+    return method
+
+
 class _BindHelper:
     def const(self, py):
         return py
@@ -441,6 +447,11 @@ class ConcBuilder:
                 o = object.__new__(rc)
             for k, v in fields.items():
                 object.__setattr__(o, k, v)
+            # methods that the contracts treat through an interface contract are stubbed on this instance
+            for qual, cons in self.reg.contracts.items():
+                for c in cons:
+                    if getattr(c, 'iface', False) and qual.rsplit('.', 1)[0] == cls:
+                        object.__setattr__(o, qual.rsplit('.', 1)[1], _stub_method(c, o, self.source, qual))
         self.objects[name] = o
         return o
 
@@ -516,6 +527,17 @@ def is_grid(o):
     return isinstance(o, list) and len(o) > 0 and all(isinstance(x, list) for x in o)
 
 
+class _Missing:
+    def __getitem__(self, k):
+        return None
+
+    def __repr__(self):
+        return '<missing>'
+
+
+MISSING = _Missing()
+
+
 class ListC:
     def __init__(self, items):
         self.items = items
@@ -525,6 +547,8 @@ class ListC:
         return cview(self.items[-k])
 
     def get(self, i):
+        if not (0 <= i < len(self.items)):
+            return MISSING                   # outside the list (both arms of a spec-level ite are evaluated)
         return cview(self.items[i])
 
 
@@ -691,9 +715,14 @@ def run_case(con, source, reg, clause_filter=None):
             if not f:
                 return {'status': 'out-of-domain', 'why': 'requires.' + cid}
         fn = resolve_function(con.name)
+        undo = con.instrument(args, source.ghost) if hasattr(con, 'instrument') else None
         result, raised, exc = None, None, None
         try:
-            result = fn(**args)
+            try:
+                result = fn(**args)
+            finally:
+                if callable(undo):
+                    undo()
         except OutOfDomain as e:
             return {'status': 'out-of-domain', 'why': str(e)}
         except BaseException as e:       # the contract decides whether this exit is allowed
